@@ -528,6 +528,55 @@ def run(ctx):
     else:
         ctx.violation(Finding('R-COORDKEYS', FILES, 'PseudoNetCDFFile._copywith', cw.body[-1], 'the copy does not receive the coordinate keys of the receiver on every path: results of file arithmetic / '
                               'mask() lose them and the next operation computes on the coordinate variables'))
+    # ---------------- R-SEQLEFT: a chain of operators is evaluated left to right: the intermediate result is the left operand of the next
+    ctx.rule('R-SEQLEFT', 'seqpncbo: the intermediate result goes back to the front of the file list (it is the left operand of the next operator)')
+    sq = ctx.src.mod(FUNCS).functions.get('seqpncbo')
+    wsq = 'src/PseudoNetCDF/%s seqpncbo' % FUNCS
+    if sq is None:
+        ctx.undec('R-SEQLEFT', 'seqpncbo', wsq, 'function not found')
+    else:
+        res = [st.targets[0].id for st in iter_stmts(sq.body) if isinstance(st, ast.Assign) and isinstance(st.targets[0], ast.Name) and isinstance(st.value, ast.Call)
+               and (dotted(st.value.func) or '').split('.')[-1] == 'pncbo']
+        verdict = None
+        for st in iter_stmts(sq.body):
+            if not res:
+                break
+            r_ = res[0]
+            if isinstance(st, ast.Expr) and isinstance(st.value, ast.Call) and isinstance(st.value.func, ast.Attribute) and any(isinstance(a, ast.Name) and a.id == r_ for a in st.value.args):
+                m_ = st.value.func.attr
+                if m_ == 'insert' and isinstance(st.value.args[0], ast.Constant) and st.value.args[0].value == 0:
+                    verdict = ('ok', st)
+                elif m_ in ('append', 'extend', 'insert'):
+                    verdict = ('bad', st)
+            if isinstance(st, ast.Assign) and isinstance(st.value, ast.BinOp) and isinstance(st.value.op, ast.Add):
+                l_, r2 = st.value.left, st.value.right
+                if isinstance(l_, ast.List) and len(l_.elts) == 1 and norm(l_.elts[0]) == r_:
+                    verdict = ('ok', st)
+                elif isinstance(r2, ast.List) and len(r2.elts) == 1 and norm(r2.elts[0]) == r_:
+                    verdict = ('bad', st)
+        if verdict is None:
+            ctx.undec('R-SEQLEFT', 'seqpncbo', wsq, 'how the intermediate result re-enters the list was not recognised')
+        elif verdict[0] == 'ok':
+            ctx.ok('R-SEQLEFT', 'seqpncbo', wsq, norm(verdict[1])[:50])
+        else:
+            ctx.violation(Finding('R-SEQLEFT', FUNCS, 'seqpncbo', verdict[1], 'the intermediate result is put behind the remaining files (%s): with two or more operators the next one takes the next file as left '
+                                  'operand and the result as right operand, so a - b / c is evaluated as c / (a - b)' % norm(verdict[1])[:40]))
+    # ---------------- R-VALUESASIS: creating a variable adds no mask condition of its own
+    ctx.rule('R-VALUESASIS', 'createVariable hands the initial values to the variable as given (no masking by value: a computed cell that equals the fill value is data)')
+    cvf = ctx.src.mod(FILES).func('PseudoNetCDFFile.createVariable')
+    wcv = 'src/PseudoNetCDF/%s PseudoNetCDFFile.createVariable' % FILES
+    badcv = None
+    for st in iter_stmts(cvf.body):
+        if isinstance(st, ast.Assign) and any(isinstance(t, ast.Subscript) and norm(t.value) == 'properties' and const_str(t.slice) == 'values' for t in st.targets):
+            badcv = badcv or st
+        for c in walk_expr(st) if not isinstance(st, (ast.If, ast.For, ast.While, ast.Try, ast.With)) else []:
+            if isinstance(c, ast.Call) and (dotted(c.func) or '').split('.')[-1].startswith('masked_'):
+                badcv = badcv or st
+    if badcv is not None:
+        ctx.violation(Finding('R-VALUESASIS', FILES, 'PseudoNetCDFFile.createVariable', badcv, 'the initial values are changed on the way into the variable (%s): pncbo creates every result with a fill value '
+                              'and its computed values, so a finite result that happens to equal the fill value (1 - 1000 = -999) comes back masked' % norm(badcv)[:60]))
+    else:
+        ctx.ok('R-VALUESASIS', 'createVariable', wcv, 'values reach the variable constructor unchanged')
     # ---------------- R-COORDDECL: coordinates declared before the variables exist are kept
     ctx.rule('R-COORDDECL', 'setCoords: with the default of `missing`, every key is registered (readers declare coordinates before they create the variables)')
     sc = ctx.src.mod(FILES).func('PseudoNetCDFFile.setCoords')
